@@ -60,6 +60,8 @@ impl RawParameters {
             globals.remove("_name");
             globals.extend(definition.split_into_parameters());
             globals.remove("inv");
+            globals.remove("omit_fwd");
+            globals.remove("omit_inv");
             recursion_level += 1;
         }
         let invocation = self.invocation.clone();
